@@ -636,16 +636,32 @@ func (c *e2Client) reader(ctx context.Context) {
 		req, _ := http.NewRequestWithContext(cctx, "GET", "https://"+n.addr+path, nil)
 		req.Header.Set("X-Session-Auth", c.auth)
 		req.RemoteAddr = "10.2.0.1:1"
-		w := &e2StreamWriter{hdr: http.Header{}, on: func(m *robust.Message) {
-			if m.Type == robust.Ping {
-				return
+		// the connection breaks after a seeded number of messages (possibly in the middle of a reply)
+		cutAfter := -1
+		if r.choice(fmt.Sprintf("client/%d/cut", c.idx), 3) == 0 {
+			cutAfter = 1 + r.choice(fmt.Sprintf("client/%d/cutafter", c.idx), 12)
+		}
+		w := &e2StreamWriter{hdr: http.Header{}}
+		w.on = func(m *robust.Message) {
+			if m.Type == robust.Ping || cutAfter == 0 {
+				return // after the cut nothing reaches the client any more
 			}
 			c.mu.Lock()
 			c.got = append(c.got, *m)
 			c.lastSeen = fmt.Sprintf("%d.%d", m.Id.Id, m.Id.Reply)
 			c.mu.Unlock()
 			r.count("messages_streamed", 1)
-		}}
+			if cutAfter > 0 {
+				cutAfter--
+				if cutAfter == 0 {
+					r.count("client_connection_cuts", 1)
+					if len(w.buf) > 0 || m.Id.Reply > 0 {
+						r.count("client_cuts_possibly_inside_reply", 1)
+					}
+					cancel()
+				}
+			}
+		}
 		inc := n.incA.Load()
 		// a watchdog cuts the connection when the node dies (the TCP connection would break)
 		go func() {
@@ -697,6 +713,11 @@ func (c *e2Client) life(ctx context.Context, wg *sync.WaitGroup, barrier *sync.W
 	if !c.post(ctx, "NICK "+c.nick, nil) || !c.post(ctx, "USER u"+strconv.Itoa(c.idx)+" 0 * :Client", nil) || !c.post(ctx, "JOIN #sim", nil) {
 		return
 	}
+	// replies with several lines per recipient: multi-target JOIN/PART on private and shared channels
+	own := fmt.Sprintf("#a%d,#b%d,#common", c.idx, c.idx)
+	if !c.post(ctx, "JOIN "+own, nil) {
+		return
+	}
 	c.readyA.Store(true)
 	joined = true
 	barrier.Done()
@@ -706,6 +727,11 @@ func (c *e2Client) life(ctx context.Context, wg *sync.WaitGroup, barrier *sync.W
 		c.mu.Lock()
 		c.posts = append(c.posts, p)
 		c.mu.Unlock()
+		if r.choice(fmt.Sprintf("client/%d/multi", c.idx), 4) == 0 {
+			// a multi-line reply for this client and the others
+			c.post(ctx, fmt.Sprintf("PART #a%d,#common,#b%d", c.idx, c.idx), nil)
+			c.post(ctx, fmt.Sprintf("JOIN #b%d,#common,#a%d", c.idx, c.idx), nil)
+		}
 		line := "PRIVMSG #sim :" + p.token
 		if r.prop == "C15" {
 			// hostile bodies through the real POST handler: the token stays at the end of the first line
@@ -1448,6 +1474,8 @@ func e2Execute(t *testing.T, sc *e2Scenario, prop string, res *core.Result) erro
 	res.Steps = len(sc.Steps)
 	res.Fingerprint = r.tr.Digest()
 	switch prop {
+	case "C04":
+		res.Nontrivial = res.Stats["client_connection_cuts"] >= 1 && res.Stats["messages_streamed"] >= 10
 	case "C10":
 		res.Nontrivial = res.Stats["duplicate_posts_sent"] >= 2
 	case "C11":
@@ -1655,6 +1683,31 @@ func (r *e2Run) finalChecks(lastFault time.Time) {
 			}
 			r.count("retried_pings_checked", 1)
 		}
+		// what the client received over its reconnecting connections is a gap-free prefix of its stream
+		c.mu.Lock()
+		for i, m := range c.got {
+			if i >= len(refMsgs) {
+				break
+			}
+			if m.Id != refMsgs[i].Id {
+				dup := false
+				for _, pm := range c.got[:i] {
+					if pm.Id == m.Id {
+						dup = true
+					}
+				}
+				if !dup {
+					r.violate("C04", "gap", "cluster-message-skipped", "client %d never received message %d.%d (%q) of its stream: over its resumed connections it got %d.%d right after %s", c.idx, refMsgs[i].Id.Id-prodMessageOffsetE2, refMsgs[i].Id.Reply, trunc(refMsgs[i].Data, 60), m.Id.Id-prodMessageOffsetE2, m.Id.Reply, func() string {
+						if i == 0 {
+							return "the start"
+						}
+						return fmt.Sprintf("%d.%d", c.got[i-1].Id.Id-prodMessageOffsetE2, c.got[i-1].Id.Reply)
+					}())
+				}
+				break
+			}
+		}
+		c.mu.Unlock()
 		// what the client itself received over its reconnecting connection: no duplicates, in order
 		c.mu.Lock()
 		seen := map[string]bool{}
